@@ -21,7 +21,7 @@ CLASSES = {
     "StronglyConvexFunction": dict(kind="f", params=[{"mu": 0.1}, {"mu": 1.0}], step="prox", metrics=["dist", "fval"]),
     "SmoothFunction": dict(kind="f", params=[{"L": 1.0}, {"L": 2.0}], step="gd", metrics=["grad", "dist", "fval"]),
     "SmoothConvexFunction": dict(kind="f", params=[{"L": 1.0}, {"L": 2.0}], step="gd", metrics=["fval", "dist", "grad"]),
-    "SmoothStronglyConvexFunction": dict(kind="f", params=[{"mu": 0.1, "L": 1.0}, {"mu": 0.5, "L": 2.0}, {"mu": 0.0, "L": 1.0}],
+    "SmoothStronglyConvexFunction": dict(kind="f", params=[{"mu": 0.1, "L": 1.0}, {"mu": 0.5, "L": 2.0}, {"mu": 0.0, "L": 1.0}, {"mu": 0.75, "L": 1.0}],
                                          step="gd", metrics=["dist", "fval", "grad"]),
     "ConvexLipschitzFunction": dict(kind="f", params=[{"M": 1.0}, {"M": 2.0}], step="subgrad", metrics=["dist"]),
     "SmoothConvexLipschitzFunction": dict(kind="f", params=[{"L": 1.0, "M": 1.0}, {"L": 2.0, "M": 0.5}, {"L": 1.0, "M": 3.0}], step="gd",
@@ -219,6 +219,8 @@ def build(spec):
         p.set_initial_condition(d0 <= 4)
     elif init == "dist1e6":
         p.set_initial_condition(d0 <= 1e6)      # badly scaled on purpose: constant of order 1e6
+    elif init == "dist1000":
+        p.set_initial_condition(d0 <= 1000)
     elif init == "dist100":
         p.set_initial_condition(d0 <= 100)      # a model that is not normalised: optimum of order 100
     elif init == "fval" and has_values and ref is not None:
@@ -433,6 +435,8 @@ def enumerate_specs(tier, family="core"):
             specs.append(dict(base, named=True, fname="func", extras=["named_ineq"]))
     for cls in ("SmoothStronglyConvexFunction", "ConvexFunction", "LipschitzOperator", "SmoothConvexFunction"):
         specs.append(dict(cls=cls, par=0, pattern="sf", metric=CLASSES[cls]["metrics"][0], init="dist1e6", n=1))
+    # multipliers spanning more than six orders of magnitude: rate 0.25^10 ~ 1e-6 on the initial condition ||x0 - x*||^2 <= 100
+    specs.append(dict(cls="SmoothStronglyConvexFunction", par=3, pattern="sf", metric="dist", init="dist100", n=5))
     for par in range(1 if quick else 2):
         specs.append(dict(cls="LinearOperator", par=par, pattern="sf", step="lin_A", metric="grad", init="dist", n=1))
     # composites and alternative steps
